@@ -52,10 +52,10 @@ func stress(en *tl.Engine) {
 	small, big := reps(en, 300, 4000), reps(en, 30, 500)
 	for i := 0; i < small; i++ {
 		n, q := 1+en.Rng.Intn(3), en.Rng.Intn(3)
-		en.Stress(n, q, tl.StressOpt{PanicPct: 5, Observers: 0, CancelMode: 2}, i)
+		en.Stress(n, q, tl.StressOpt{PanicPct: 5, Observers: 0, CancelMode: 2, Kinds: true}, i)
 	}
 	for i := 0; i < big; i++ {
 		n, q := 1+en.Rng.Intn(4), en.Rng.Intn(4)
-		en.Stress(n, q, tl.StressOpt{Big: true, PanicPct: 5, Observers: 1, CancelMode: 2, SleepTasks: true}, i)
+		en.Stress(n, q, tl.StressOpt{Big: true, PanicPct: 5, Observers: 1, CancelMode: 2, Kinds: true, SleepTasks: true}, i)
 	}
 }
